@@ -916,7 +916,75 @@ Proof.
   destruct (is_fault x); [done|]. apply IH. by apply erase_m_meq.
 Qed.
 
+(** ** the capacity operations and clone *)
+
+Lemma erase_m_reset (m : machine) : erase_m (reset_ticks m) = erase_m m.
+Proof.
+  induction m as [|x m IH]; [done|].
+  unfold erase_m, reset_ticks in *. rewrite !fmap_cons. f_equal; [|exact IH].
+  destruct x as [ [k s]|]; [|done]. by destruct s.
+Qed.
+
+Lemma getreg_lookup (m : machine) r ks :
+  getreg m r = Some ks -> m !! r = Some (Some ks).
+Proof.
+  unfold getreg, Machine.machine. destruct (_ !! _) as [ [x|]|]; simpl; intros; by simplify_eq.
+Qed.
+
+Lemma getreg_erase (m : machine) r k s :
+  getreg m r = Some (k, s) -> getreg (erase_m m) r = Some (k, erase s).
+Proof.
+  intros H%getreg_lookup. unfold getreg, erase_m, Machine.machine in *.
+  by rewrite list_lookup_fmap, H.
+Qed.
+
+Lemma erase_m_setreg (m : machine) r k s :
+  erase_m (setreg m r k s) = <[r := Some (k, erase s)]> (erase_m m).
+Proof. unfold erase_m, setreg, Machine.machine. by rewrite list_fmap_insert. Qed.
+
+Lemma erase_m_setreg_same (m : machine) r k s s' :
+  getreg m r = Some (k, s) -> erase s' = erase s ->
+  erase_m (setreg m r k s') = erase_m m.
+Proof.
+  intros Hr He. rewrite erase_m_setreg, He. apply list_insert_id.
+  apply getreg_lookup. by apply getreg_erase.
+Qed.
+
+Theorem cap_ops_invisible : cap_ops_invisible_stmt keq hash ple peq alloc_limit.
+Proof.
+  intros m o. destruct o; try exact Logic.I; unfold step, step1;
+    rewrite <- (erase_m_reset m); generalize (reset_ticks m); clear m; intros m.
+  - (* OClone *)
+    destruct (getreg m src) as [ [k s]|] eqn:Hr; [|done].
+    destruct (clone_cbs s (length (smap s))); [|done|done]. intros _.
+    exists (k, erase s). split; [by apply getreg_erase|].
+    cbn [fst]. rewrite erase_m_setreg. by destruct s.
+  - (* OCloneFrom *)
+    destruct (decide (src = dst)); [done|].
+    destruct (getreg m src) as [ [k s]|] eqn:Hr; [|done].
+    destruct (getreg m dst) as [ [k' s']|]; [|done].
+    destruct (decide (k = k')); [|done].
+    destruct (clone_cbs s (length (smap s))); [|done|done]. intros _.
+    exists (k, erase s). split; [by apply getreg_erase|].
+    cbn [fst]. rewrite erase_m_setreg. by destruct s.
+  - (* OReserve *)
+    destruct (getreg m r) as [ [k s]|] eqn:Hr; [|done].
+    unfold reserve. destruct (decide _); cbn; [|done]. intros _.
+    eapply erase_m_setreg_same; [exact Hr|]. by destruct s.
+  - (* OTryReserve *)
+    destruct (getreg m r) as [ [k s]|] eqn:Hr; [|done].
+    unfold try_reserve. destruct (decide _); cbn [fst snd]; intros _.
+    + eapply erase_m_setreg_same; [exact Hr|]. by destruct s.
+    + by eapply erase_m_setreg_same.
+  - (* OShrink *)
+    destruct (getreg m r) as [ [k s]|] eqn:Hr; [|done]. intros _. cbn [fst].
+    eapply erase_m_setreg_same; [exact Hr|]. by destruct s.
+  - (* OCapacity *)
+    by destruct (getreg m r) as [ [k s]|].
+Qed.
+
 End GhostIndep.
 
+Print Assumptions cap_ops_invisible.
 Print Assumptions ghost_indep_step.
 Print Assumptions ghost_indep_run.
